@@ -516,6 +516,7 @@ func checkCodec(c CodecCase) error {
 	if len(c.Ops) == 0 {
 		return nil
 	}
+	drainPools() // same starting point in the rapid run and in a replay
 	// phase 0: inputs and models
 	ps := make([]*prepared, len(c.Ops))
 	for i, op := range c.Ops {
